@@ -159,7 +159,7 @@ PROPS["C11"] = {
     "assumptions": ["partial by nature: the Go memory model, fairness and network-facing diagnostics are outside the model"],
 }
 
-PROPS["C09"]["components"].append(Sched("trans", 3000, 150000, exhaustive_limit=3000))
+PROPS["C09"]["components"].append(Sched("trans", 3000, 150000, exhaustive_limit=3000, conformance="tr-trans"))
 PROPS["C09"]["rule"] += " trans: 2-4 threads among OpenCircuit / CloseCircuit / failing call (opener says open) / succeeding probe (closer admits and says close) race from a closed or open circuit under the cooperative scheduler; quiescent monitor: alternation and IsOpen = last notification."
 PROPS["C09"]["trusted_base"] = TB_CIRCUIT + TB_SCHED
 
